@@ -41,6 +41,13 @@ from exabgp.bgp.message.update.attribute.community.extended import ExtendedCommu
 from exabgp.util.types import Buffer
 
 
+def _rate(value: float) -> str:
+    # the rate is an IEEE float chosen by the peer: NaN and the infinities have no integer form
+    if value != value or value in (float('inf'), float('-inf')):
+        return str(value)
+    return '%d' % value
+
+
 # ================================================================== TrafficRate
 
 
@@ -73,7 +80,7 @@ class TrafficRate(ExtendedCommunity):
         return value
 
     def __repr__(self) -> str:
-        return 'rate-limit:%d' % self.rate
+        return 'rate-limit:%s' % _rate(self.rate)
 
     @classmethod
     def unpack_attribute(cls, data: Buffer, negotiated: Negotiated | None = None) -> TrafficRate:
@@ -111,7 +118,7 @@ class TrafficRatePackets(ExtendedCommunity):
         return max(value, 0.0)
 
     def __repr__(self) -> str:
-        return 'rate-limit:%d:packets' % self.rate
+        return 'rate-limit:%s:packets' % _rate(self.rate)
 
     @classmethod
     def unpack_attribute(cls, data: Buffer, negotiated: Negotiated | None = None) -> TrafficRatePackets:
